@@ -73,14 +73,18 @@ def asmAssembleStr (a : Inst) (text : Str) : Inst × Except Err Unit :=
   | .error e => (res.a, .error e)
   | .ok bp => ({ res.a with offset := toInt32 bp }, .ok ())
 
+/-- the instance as `asm_assemble_string_counting_chunks` sets it up for the duration of the call -/
+def countSetup (a : Inst) (c : Int) : Inst :=
+  { a with mode := if c < 2 then .assemble else .count,
+           chunkSize := (c % (2 ^ 64 : Int)).toNat }
+
 /-- `asm_assemble_string_counting_chunks(al, str, chunk_size, dest)`;
     result: instance, return value, `*dest` (if `dest` was given). -/
 def asmCountingChunks (a : Inst) (text : Str) (c : Int) (hasDest : Bool) :
     Inst × Except Err Unit × Option Int :=
   let savedMode := a.mode
   let savedChunk := a.chunkSize
-  let a1 := { a with mode := if c < 2 then .assemble else .count,
-                     chunkSize := (c % (2 ^ 64 : Int)).toNat }
+  let a1 := countSetup a c
   let res := assembleAll (lineFn a1) a1 text hasDest
   let a2 := { res.a with mode := savedMode, chunkSize := savedChunk }
   match res.ret with
